@@ -430,6 +430,10 @@ class PEval:
                 v = self.ev(e, env, depth)
                 if ei and isinstance(v, int):
                     return ('scalar', v, ei[0], ei[1])
+                if isinstance(v, float) and (dtype(e) or '').replace('const ', '') in ('float', 'double'):
+                    import struct as _st
+                    raw_ = _st.pack('<f' if 'float' in (dtype(e) or '') else '<d', v)
+                    return Lit(raw_)
                 if isinstance(v, (Arr, Str, Rec)):
                     return v
         return self.ev(n, env, depth)
@@ -943,6 +947,12 @@ class PEval:
         if s0.get('kind') == 'UnaryOperator' and s0.get('opcode') == '*':
             p = self.ev(kids(s0)[0], env, depth)
             if isinstance(p, Ref):
+                pt = (qtype(strip(kids(s0)[0])) or '').replace('const ', '').strip()
+                cur = self.lookup_or(p.env, p.key)
+                if isinstance(val, float) and pt in ('float *', 'double *') and (isinstance(cur, int) or cur == ('uninit',)):
+                    # *(double*)&u64 = x: the object keeps the bit pattern of x
+                    import struct as _st
+                    val = int.from_bytes(_st.pack('<f' if pt.startswith('float') else '<d', val), 'little')
                 self.store(p.env, p.key, val)
                 return
         if s0.get('kind') in ('ArraySubscriptExpr', 'CXXOperatorCallExpr'):
@@ -1540,6 +1550,54 @@ class PEval:
                     w_ = out[:cap - 1] + b'\0'
                     buf.b[off:off + len(w_)] = w_
                 return len(out)
+        if name in ('strtoull', 'strtoul', 'strtoll', 'strtol', 'strtod', 'strtof') and len(args) >= 2:
+            sp = self.ev(args[0], env, depth)
+            endp = self.ev(args[1], env, depth)
+            base = self.ev(args[2], env, depth) if len(args) > 2 and name not in ('strtod', 'strtof') else 10
+            if isinstance(sp, (Lit, Str)) or (isinstance(sp, tuple) and sp and sp[0] == 'bufptr'):
+                raw = (sp.data[sp.off:] if isinstance(sp, Lit) and isinstance(sp.data, (bytes, bytearray)) else bytes(sp.b) if isinstance(sp, Str) else bytes(sp[1].b[sp[2]:]))
+                raw = bytes(raw).split(b'\0')[0]
+                i_ = 0
+                while i_ < len(raw) and raw[i_:i_ + 1] in b' \t\n\v\f\r':
+                    i_ += 1
+                if name in ('strtod', 'strtof'):
+                    m_ = re.match(rb'[+-]?(?:[0-9]+\.?[0-9]*|\.[0-9]+)(?:[eE][+-]?[0-9]+)?', raw[i_:])
+                    val = float(m_.group(0)) if m_ else 0.0
+                    if name == 'strtof':
+                        val = _f32(val)
+                    used = i_ + m_.end() if m_ else 0
+                else:
+                    j_ = i_
+                    neg = False
+                    if raw[j_:j_ + 1] in (b'+', b'-'):
+                        neg = raw[j_:j_ + 1] == b'-'
+                        j_ += 1
+                    b_ = base
+                    if b_ in (0, 16) and raw[j_:j_ + 2].lower() == b'0x' and re.match(rb'[0-9a-fA-F]', raw[j_ + 2:j_ + 3] or b'?'):
+                        j_ += 2
+                        b_ = 16
+                    elif b_ == 0:
+                        b_ = 8 if raw[j_:j_ + 1] == b'0' else 10
+                    digs = b'0123456789abcdefghijklmnopqrstuvwxyz'[:b_]
+                    k_ = j_
+                    while k_ < len(raw) and raw[k_:k_ + 1].lower() in [digs[x_:x_ + 1] for x_ in range(len(digs))]:
+                        k_ += 1
+                    if k_ == j_:
+                        val, used = 0, 0
+                    else:
+                        mag = int(raw[j_:k_], b_)
+                        used = k_
+                        if name in ('strtoull', 'strtoul'):
+                            val = ((1 << 64) - 1) if mag >= 1 << 64 else ((-mag) & ((1 << 64) - 1) if neg else mag)
+                        else:
+                            v_ = -mag if neg else mag
+                            val = max(-(1 << 63), min((1 << 63) - 1, v_))      # saturates (ERANGE)
+                if isinstance(endp, Ref):
+                    newp = Lit(sp.data, sp.off + used) if isinstance(sp, Lit) else ('bufptr', sp, used) if isinstance(sp, Str) else ('bufptr', sp[1], sp[2] + used)
+                    self.store(endp.env, endp.key, newp)
+                elif endp is not None:
+                    raise Undecided('%s end pointer' % name)
+                return val
         if name == '__errno_location' and not args:
             if not hasattr(self, 'genv'):
                 self.genv = {'errno': 0}
@@ -1780,6 +1838,9 @@ class PEval:
         if name == 'append':
             if len(vals) == 1:
                 self.str_append(s, vals[0])
+            elif len(vals) == 2 and isinstance(vals[0], Ref) and isinstance(vals[1], int):
+                real = [a for a in args if a.get('kind') != 'CXXDefaultArgExpr']
+                s.b += self.mem_bytes(self.addr_bytes_source(real[0], env, depth), vals[1])
             elif len(vals) == 2 and isinstance(vals[0], Lit) and isinstance(vals[1], int):
                 s.b += bytes(vals[0].data[vals[0].off:vals[0].off + vals[1]])
             elif len(vals) == 2 and isinstance(vals[0], Str) and isinstance(vals[1], int) and getattr(vals[0], 'fixed', False):
